@@ -9,7 +9,7 @@ from TotalDepth.LAS.core import WriteLAS, LASRead
 from TotalDepth.common import LogPass, Slice
 
 VALS = [0.0, -1.0, 12345678.5, 0.0004, -999.25, 2.71875, -0.06, 1e-9]
-NAMES = [('DEPT', 'm'), ('GR', 'gAPI'), ('CNT', ''), ('WAVE', 'mV'), ('SPEC', 'cps')]
+NAMES = [('DEPT', '.1IN'), ('GR', 'gAPI'), ('CNT', ''), ('WAVE', 'OHM.M'), ('SPEC', 'cps')]        # units with dots are ordinary (LIS depth unit, resistivity)
 IVALS = [[5, 6, 6, 6], [-5, -6, -6, -6], [1, 2, 3, 4], [7, 7, 7, 8], [-1, 0, 0, 2]]
 UVALS = [[250, 251, 251, 251], [0, 0, 1, 1], [1, 2, 3, 4], [7, 7, 7, 8], [9, 200, 200, 202]]
 HEAD = '~Version Information Section\nVERS. 2.0 : CWLS\nWRAP. NO : One line per depth step\n~Well Information Section\nNULL. -999.25 : NULL\n'
@@ -18,10 +18,10 @@ HEAD = '~Version Information Section\nVERS. 2.0 : CWLS\nWRAP. NO : One line per 
 def _frame_array(nframes, v0, v1):
     import numpy as np
     fa = LogPass.FrameArray('FA', 'description')
-    fa.append(LogPass.FrameChannel('DEPT', 'Depth', 'm', (1,), np.float64))
+    fa.append(LogPass.FrameChannel('DEPT', 'Depth', '.1IN', (1,), np.float64))
     fa.append(LogPass.FrameChannel('GR', 'Gamma', 'gAPI', (1,), np.float32))
     fa.append(LogPass.FrameChannel('CNT', 'Count', '', (1,), np.int32))
-    fa.append(LogPass.FrameChannel('WAVE', 'Waveform', 'mV', (2,), np.float64))
+    fa.append(LogPass.FrameChannel('WAVE', 'Waveform', 'OHM.M', (2,), np.float64))
     fa.append(LogPass.FrameChannel('SPEC', 'Spectrum counts', 'cps', (4,), np.int16 if v0 % 2 == 0 else np.uint8))
     fa.init_arrays(nframes)
     for f in range(nframes):
@@ -43,13 +43,13 @@ def _reduce(vals, method):
 
 def write_read(nframes: int, m1: bool, m2: bool, m3: bool, bogus: bool, width: int, dec: int, red: int, v0: int, v1: int, m4: bool = False, incr: bool = False) -> bool:
     """
-    pre: 1 <= nframes <= 2 and 4 <= width <= 16 and 1 <= dec <= 4 and 0 <= red <= 4
-    pre: 0 <= v0 <= 7 and 0 <= v1 <= 7
+    pre: 1 <= nframes <= 2 and width in (4, 5, 7, 8, 12, 16) and 1 <= dec <= 4 and 0 <= red <= 4
+    pre: 0 <= v0 <= 7 and v1 in (0, 3, 5, 6)
     pre: PART < 0 or (8 if m1 else 0) + (4 if m2 else 0) + (2 if m3 else 0) + (1 if bogus else 0) == PART
     post: _
     """
-    nframes, width, dec, red = mark.pick(nframes, 1, 2), mark.pick(width, 4, 16), mark.pick(dec, 1, 4), mark.pick(red, 0, 4)
-    v0, v1 = mark.pick(v0, 0, 7), mark.pick(v1, 0, 7)
+    nframes, width, dec, red = mark.pick(nframes, 1, 2), mark.pick_from(width, (4, 5, 7, 8, 12, 16)), mark.pick(dec, 1, 4), mark.pick(red, 0, 4)
+    v0, v1 = mark.pick(v0, 0, 7), mark.pick_from(v1, (0, 3, 5, 6))
     m1, m2, m3, bogus, m4, incr = mark.pickb(m1), mark.pickb(m2), mark.pickb(m3), mark.pickb(bogus), mark.pickb(m4), mark.pickb(incr)
     with mark.untraced():
         return _write_read(nframes, m1, m2, m3, bogus, width, dec, red, v0, v1, m4, incr)
